@@ -212,9 +212,14 @@ def close_part(ctx, c):
             continue
         c.count('nrt:score closed from inside a routine on %s with %s' % (K.clock_name(p['main'][0][2]) if p['main'][0][0] == 'P' else '?', p['close']['how']))
         c.nontriv(('close', json.dumps(p, sort_keys=True)))
-        items.append('(%s, %s, mkNObs %s %s %s)' % (K.prog(p), K.q(p['close']['tail']), fw.clist(o['events'], K.event), fw.clist(o['score'], K.selem), K.q(o['elapsed'])))
+        raw = bytes.fromhex(o['raw_hex']) if o.get('raw_hex') else None
+        items.append('(%s, %s, mkNObs %s %s %s, %s)' % (K.prog(p), K.q(p['close']['tail']), fw.clist(o['events'], K.event), fw.clist(o['score'], K.selem),
+                                                       K.q(o['elapsed']), 'None' if raw is None else '(Some %s)' % fw.cbytes(raw)))
+        if raw is not None:
+            c.count('nrt:whole raw score compared byte for byte with the model (C06 encoder on the model score)')
         idx.append(i)
-    body = 'Eval vm_compute in bad_idx (fun c => match c with (p, tl, o) => closed_agrees p %d tl o end) cases.' % K.FUEL
+    body = ('Eval vm_compute in bad_idx (fun c => match c with (p, tl, o, raw) => closed_agrees p %d tl o && '
+            'match raw with Some r => raw_agrees (n_score (nrt_run_closed_inside repaired p %d tl)) r | None => true end end) cases.' % (K.FUEL, K.FUEL))
     bad, errs = fw.check_shards(ctx, 'nrt_close', K.CLOSE_HEADER, items, body, shard=40)
     for e in errs:
         c.failures.append(Failure('correspondence', 'coq evaluation of closed-inside cases failed: ' + e[:800]))
